@@ -18,3 +18,5 @@ def run_deductive(rep):
         C08_lemmas.run(rep)
     except ImportError:
         pass
+    from ..static import frames as _frames
+    _frames.report(rep, table=_frames.CALLABLES, conditions=("F5",))      # a stored predictor keeps no memory of earlier calls (same object refilled in place -> new answer)
